@@ -142,6 +142,31 @@ Theorem C02_reply_any_split_10 : forall s o p ws0 cs payload post,
     n_next_id s' = n_next_id s + 1.
 Proof. exact reply_never_lost_10. Qed.
 
+(* --- the source itself: record1dot1Chunks as translated on this run (GeneratedSkel.record_chunks_code),
+   every test and statement given its arithmetic meaning over the parser's variables (RecordSrc.v), an
+   index or slice out of range a panic: its run on ANY reply is the cursor model's result ... *)
+From Scrapli Require Import DecideLang GeneratedSkel RecordSrc RecordSrcOk.
+Theorem C02_record_chunks_is_source : forall raw, record_chunks_src raw = Some (record11_go raw).
+Proof. exact record_chunks_is_source. Qed.
+
+(* ... so the theorems above are theorems about that run: it never panics, never runs out of
+   iterations, and decodes every legal chunking to exactly the payload *)
+Theorem C02_source_never_panics : forall raw, exists r, record_chunks_src raw = Some r /\ r <> DPanic.
+Proof.
+  intros raw. exists (record11_go raw). split; [exact (record_chunks_is_source raw)|exact (record11_no_panic raw)].
+Qed.
+
+Theorem C02_source_wellformed_11 : forall chunks pre post,
+  chunks <> [] -> Forall chunk_ok chunks -> ws pre -> ws post ->
+  record_chunks_src (pre ++ encode11 chunks ++ post) = Some (DOk (finish11 (concat chunks))).
+Proof. intros. rewrite record_chunks_is_source, record11_go_refines. f_equal. now apply wellformed11. Qed.
+
+(* Record / record1dot1 as translated: the rpc-error scan of the raw bytes, the decoder of the session's
+   version, under 1.1 the second scan (of the decoded payload) only when nothing failed; a decoder
+   error marks the response failed *)
+Theorem C02_record_steps_are_source : record_steps_ok = true.
+Proof. exact record_steps_are_source. Qed.
+
 Print Assumptions C02_go_refines_spec.
 Print Assumptions C02_never_panics.
 Print Assumptions C02_wellformed_11.
@@ -157,3 +182,7 @@ Print Assumptions C02_wellformed_10.
 Print Assumptions C02_split_independent.
 Print Assumptions C02_reply_any_split_11.
 Print Assumptions C02_reply_any_split_10.
+Print Assumptions C02_record_chunks_is_source.
+Print Assumptions C02_source_never_panics.
+Print Assumptions C02_source_wellformed_11.
+Print Assumptions C02_record_steps_are_source.
